@@ -48,7 +48,7 @@ EVENTS = [['none'], ['presence_down', 0], ['identity_groups', 'g', 1],
 
 # what happens between publication and the restart
 BETWEEN = ['nothing', 'stale_record_first', 'presence_restarted0',
-           'presence_gone0', 'record_shrunk0']
+           'presence_gone0', 'record_shrunk0', 'blackedout0']
 
 
 def subharnesses(tier):
@@ -101,6 +101,10 @@ def harness(S, spec):
         for srv in ('s0', 's1'):
             b.seed('/placement/%s/proid.aaa#0000000009' % srv,
                    {'identity': None, 'expires': 1})
+    if bt == 'blackedout0':
+        # the server is put on the blackout list; it still has its presence
+        # and its instances (the running master would keep them there)
+        b.seed('/blackedout.servers/s0', None)
     if bt == 'presence_restarted0':
         b.unseed('/server.presence/s0')
         b.seed('/server.presence/s0', {})        # newer than any placement
